@@ -92,6 +92,10 @@ def visit(expr, previsitor, postvisitor=None):
         for child in expr:
             visit(child, previsitor, postvisitor)
 
+    elif getattr(expr, 'is_keyword_arg', False):
+        # A keyword argument is not an expression itself, but it holds one.
+        visit(expr.expr, previsitor, postvisitor)
+
 
 class SymbolCounter:
     def __init__(self):
